@@ -629,6 +629,65 @@ def run(ck):
                         inp_, got_, [0.0, J2, -J2])
     except Exception as e:
         ck.fail("raises:remove_cutoff_coupling", "remove_cutoff_coupling under a units context raised %r" % (e,), {})
+    # contexts of the other managed units (lengths): nesting, exceptions, an energy context inside a length context
+    try:
+        from quantarhei import length_units
+        lunits = ["A", "nm", "Bohr"]
+        for lu1 in lunits:
+            for lu2 in lunits:
+                for variant in ("nested", "exception", "energy-inside"):
+                    m.current_units["energy"] = "1/fs"; m._in_eu_count = 0; m._in_energy_units_context = False
+                    l0 = m.get_current_units("length")
+                    seen = []
+                    try:
+                        with length_units(lu1):
+                            seen.append(m.get_current_units("length"))
+                            if variant == "energy-inside":
+                                with energy_units("1/cm"):
+                                    seen.append((m.get_current_units("length"), m.get_current_units("energy")))
+                                seen.append((m.get_current_units("length"), m.get_current_units("energy")))
+                            else:
+                                with length_units(lu2):
+                                    seen.append(m.get_current_units("length"))
+                                    if variant == "exception":
+                                        raise Boom()
+                                seen.append(m.get_current_units("length"))
+                    except Boom:
+                        pass
+                    except Exception as e:
+                        seen.append("raised %r" % (e,))
+                    after = (m.get_current_units("length"), m.get_current_units("energy"))
+                    want = [lu1, (lu1, "1/cm"), (lu1, "1/fs")] if variant == "energy-inside" else ([lu1, lu2, lu1] if variant == "nested" else [lu1, lu2])
+                    ck.case(("length-contexts", lu1, lu2, variant), nontrivial=(lu1 != lu2), accessor="length_units")
+                    if seen != want or after != (l0, "1/fs"):
+                        ck.fail("contexts:length-units", "length-units contexts (%s) do not present / restore the units as nested contexts must" % variant,
+                                {"outer": lu1, "inner": lu2 if variant != "energy-inside" else "energy_units('1/cm')", "variant": variant}, [seen, after], [want, (l0, "1/fs")])
+                        m.current_units["length"] = l0; m.current_units["energy"] = "1/fs"
+    except Exception as e:
+        ck.fail("raises:length-contexts", "length-units contexts raised %r" % (e,), {})
+    # bath functions of the kinds that carry further energy parameters (frequency, damping): the function does not depend on the units in
+    # which the parameters were given
+    try:
+        for prm in (dict(ftype="UnderdampedBrownian", reorg=20.0, freq=300.0, gamma=30.0, T=300.0), dict(ftype="B777", reorg=20.0, gamma=25.0, T=300.0, alternative_form=False),
+                    dict(ftype="Underdamped", reorg=20.0, freq=250.0, gamma=40.0, T=300.0)):
+            m.current_units["energy"] = "1/fs"; m._in_eu_count = 0; m._in_energy_units_context = False
+            with energy_units("1/cm"):
+                ref_ = CorrelationFunction(ta, dict(prm))
+            dref = numpy.array(ref_.data).copy()
+            for un_ in ("int", "eV", "THz", "meV"):
+                p2 = dict(prm)
+                for k_ in ("reorg", "freq", "gamma"):
+                    if k_ in p2:
+                        p2[k_] = float(qr.convert(prm[k_], "1/cm", to=un_))
+                with energy_units(un_):
+                    f2 = CorrelationFunction(ta, p2)
+                dv_ = float(numpy.abs(numpy.array(f2.data) - dref).max() / numpy.abs(dref).max())
+                ck.case(("bath-function-params", prm["ftype"], un_), nontrivial=True, accessor="CorrelationFunction(params)")
+                if dv_ > 1e-9 or abs(float(f2.lamb) - float(ref_.lamb)) > 1e-12 * abs(float(ref_.lamb)):
+                    ck.fail("accessor:bath-function-params:%s" % prm["ftype"], "a bath correlation function whose parameters are given in %s differs from the one whose "
+                            "parameters are given in 1/cm (same values)" % un_, {"params_cm": prm, "units": un_}, dv_)
+    except Exception as e:
+        ck.fail("raises:bath-function-params", "raised %r" % (e,), {})
     # whole-number values handed over as an integer array (800 nm, 12000 1/cm, 2 eV): stored as the exact conversion of the numbers
     try:
         from quantarhei import Hamiltonian
